@@ -88,7 +88,8 @@ def gen_put(rng, nargs=None, allow_dots=True, allow_missing=True, allow_mount=Tr
         elif r < 0.35:
             argv.append('-i')
             mode = 'interactive'
-            stdin = ''.join(rng.choice(['y\n', 'n\n', 'Y\n', '\n', 'yes\n', 'x\n']) for _ in range(len(args) + 1))
+            # sometimes fewer replies than prompts: end of input at a prompt is a "no" (fix 0230f49), the run goes on
+            stdin = ''.join(rng.choice(['y\n', 'n\n', 'Y\n', '\n', 'yes\n', 'x\n']) for _ in range(rng.choice([len(args) + 1, len(args) + 1, 1, 0, len(args) // 2])))
         if rng.random() < 0.3:
             argv.append(rng.choice(['-v', '-vv']))
         if rng.random() < 0.15:
